@@ -1,25 +1,25 @@
 // C10 - the rate of one unit of `from` in `to` as of `date`: the entry of the table the records give for (to, date) - the table
-// PriceRepository::convert_single (extracted, proved below in this file) looks up.  The memo never changes an answer: that is
+// PriceRepository::convert_single (extracted, proved below in this file) looks up; the rates are a function of the records (`inner`) alone.  The memo never changes an answer: that is
 // convert_single's `cache_consistent` invariant, proved, no longer assumed.
-impl PriceRepository {
+impl NaivePriceRepository {
     pub open spec fn rate(&self, from: Commodity, to: Commodity, date: NaiveDate) -> Option<real> {
-        let t = self.inner.table(to, date);
+        let t = self.table(to, date);
         if t.contains_key(from) { Some(t[from].1.val()) } else { None }
     }
 }
 
 /// value of one holding in the target commodity (None: no rate)
-pub open spec fn conv_value(repo: &PriceRepository, v: SingleAmount, target: Commodity, date: NaiveDate) -> Option<real> {
+pub open spec fn conv_value(repo: &NaivePriceRepository, v: SingleAmount, target: Commodity, date: NaiveDate) -> Option<real> {
     if v.commodity == target { Some(v.v()) } else {
         match repo.rate(v.commodity, target, date) { Some(r) => Some(v.v() * r), None => None }
     }
 }
-pub open spec fn conv_sum(repo: &PriceRepository, items: Seq<SingleAmount>, n: int, target: Commodity, date: NaiveDate) -> real
+pub open spec fn conv_sum(repo: &NaivePriceRepository, items: Seq<SingleAmount>, n: int, target: Commodity, date: NaiveDate) -> real
     decreases n
 {
     if n <= 0 { 0real } else { conv_sum(repo, items, n - 1, target, date) + conv_value(repo, items[n - 1], target, date).unwrap() }
 }
-pub open spec fn all_convertible(repo: &PriceRepository, items: Seq<SingleAmount>, n: int, target: Commodity, date: NaiveDate) -> bool {
+pub open spec fn all_convertible(repo: &NaivePriceRepository, items: Seq<SingleAmount>, n: int, target: Commodity, date: NaiveDate) -> bool {
     forall|j: int| 0 <= j < n ==> conv_value(repo, #[trigger] items[j], target, date) is Some
 }
 
